@@ -832,6 +832,17 @@ hdf_xdr_NCvdata(NC *handle, NC_var *vp, unsigned long where, nc_type type, uint3
         goto done;
     }
 
+    /* A fixed-size dataset that has no stored data yet and is written in no-fill mode needs its full
+       length reserved before anything can be written at an offset > 0 (nothing fills the lead-in).
+       SDwritedata asks for that through vp->set_length, but only for a dataset created in this
+       session and only if its access id is opened after that request; a dataset created in an
+       earlier session, or one that was read before its first write, was refused the write. */
+    if (elem_length <= 0 && !isspecial && handle->xdrs->x_op == XDR_ENCODE && (handle->flags & NC_NOFILL) &&
+        !IS_RECVAR(vp)) {
+        Hsetlength(vp->aid, vp->len);
+        vp->set_length = FALSE;
+    }
+
     /* Check for zero-length compressed special element, i.e. a template */
     if (elem_length <= 0) {
         attr = NC_findattr(&vp->attrs, _FillValue);
